@@ -23,6 +23,7 @@
 #include "../util/options.h"
 #include "../util/slice.h"
 #include "../util/status.h"
+#include "../util/verif.h"
 
 #include "block.h"
 #include "filter_block.h"
@@ -191,6 +192,8 @@ ldb_table_open(const ldb_dbopt_t *options,
 
 void
 ldb_table_destroy(ldb_table_t *table) {
+  LCDB_ACC("tblfree", table, 0);
+
   if (table->filter != NULL)
     ldb_filter_destroy(table->filter);
 
@@ -321,6 +324,8 @@ ldb_table_internal_get(ldb_table_t *table,
   ldb_iter_t *index_iter;
   int rc = LDB_OK;
 
+  LCDB_ACC("tbluse", table, 1);
+
   index_iter = ldb_blockiter_create(table->index_block,
                                     table->options.comparator);
 
@@ -359,6 +364,8 @@ ldb_table_internal_get(ldb_table_t *table,
     rc = ldb_iter_status(index_iter);
 
   ldb_iter_destroy(index_iter);
+
+  LCDB_ACC("tbluse", table, 0);
 
   return rc;
 }
